@@ -24,4 +24,7 @@ def run(ctx, rep):
     rep.run(RM.rule_cross_class_state_keyed_by_class, ctx, rep, "X4")
     rep.run(RM.rule_none_result_handled, ctx, rep, "X3")
     rep.run(RM.rule_ignore_entries_match_whole_names, ctx, rep, "X5")
+    # X6: where an entity's file goes depends on its own namespace only - every kind of entity is filed under the same package path, so
+    # removing (ignoring) the first entity of a scope cannot move its neighbours (= C10/T3)
+    rep.run(RM.rule_package_paths, ctx, rep, "X6")
     rep.run(RF.rule_locals_defined, ctx, rep, "U1", packages=("gtwrap/matlab_wrapper", "gtwrap/pybind_wrapper.py"), min_functions=3)
